@@ -1738,6 +1738,10 @@ size_t OPNMIDIplay::chooseDevice(const std::string &name)
     if(i != m_midiDevices.end())
         return i->second;
 
+    // Every device costs a block of 16 channel records: a file can name a new one with a few bytes
+    if(m_midiDevices.size() >= 16)
+        return 0;
+
     size_t n = m_midiDevices.size() * 16;
     m_midiDevices.insert(std::make_pair(name, n));
     m_midiChannels.resize(n + 16);
